@@ -114,7 +114,8 @@ PromoRaises(T, o, dm2) ==
 MConvRaises(A, T) ==
   CASE A.op \in {"add", "sub", "np.linspace", "np.logspace"} -> PromoRaises(T, A.y, T.bus[T.objs[A.x].b].dm)
     [] A.op = "eq" -> ~OMag(T, A.y).z /\ PromoRaises(T, A.y, FALSE)
-    [] A.op \in {"value", "to", "radd", "rsub"} \cup SinOps \cup ArcOps -> PromoRaises(T, A.x, FALSE)
+    [] A.op \in {"value", "to", "radd", "rsub", "radd0", "radd0f", "sum1"} \cup SinOps \cup ArcOps -> PromoRaises(T, A.x, FALSE)
+    [] A.op = "sum2" -> PromoRaises(T, A.x, FALSE) \/ PromoRaises(T, A.y, FALSE)
     [] OTHER -> FALSE
 \* the machine step.  RO = the result object (tokens, flags) computed from the MACHINE's view of the operands,
 \* refused = the machine's own refusal (RefusesOn asked about its view of the operands)
@@ -149,7 +150,14 @@ MStep(A, T, RO, refused, tok) ==
                         THEN ConvCopyBU(T, y, T.objs[x].b)        \* b._convert(b.magnitude, b.baseunits, a.baseunits)
                         ELSE ToBU(T, y, T.objs[x].b)
               IN IF refused THEN T1 ELSE ResShareBU(T1, WithConv(RO, T1), T1.objs[x].b)
-    [] op \in {"radd", "rsub"} ->
+    [] op = "sum2" ->
+         \* (0 + x) + y : both quantities are converted (copies) to the units of the temporary left operand
+         IF refused THEN T
+         ELSE LET T0 == FreshBU(T, UNone)
+                  T1 == IF Fx("rhs_converted_in_place") THEN ConvCopyBU(T0, x, Len(T0.bus)) ELSE ToBU(T0, x, Len(T0.bus))
+                  T2 == IF Fx("rhs_converted_in_place") THEN ConvCopyBU(T1, y, Len(T0.bus)) ELSE ToBU(T1, y, Len(T0.bus))
+              IN ResFresh(T2, RO, UNone)
+    [] op \in {"radd", "rsub", "radd0", "radd0f", "sum1"} ->
          \* left = Quantity(number) ; self.to(left.baseunits)
          IF refused THEN T
          ELSE LET T0 == FreshBU(T, UNone)
@@ -202,7 +210,7 @@ MRefuses(A, T) == RefusesOn(A, MObj(T, A.x), IF A.y > 0 THEN MObj(T, A.y) ELSE M
 DevName(A, T, o) ==
   CASE A.op \in InplaceOps -> "shares_magnitude_with_receiver"
     [] A.op \in {"add", "sub"} -> IF IsLog(OUnit(T, A.x)) THEN "log_operands_to_linear" ELSE "rhs_converted_in_place"
-    [] A.op \in {"eq", "radd", "rsub"} -> "rhs_converted_in_place"
+    [] A.op \in {"eq", "radd", "rsub", "radd0", "radd0f", "sum1", "sum2"} -> "rhs_converted_in_place"
     [] A.op \in {"np.linspace", "np.logspace"} -> "arg_converted_in_place"
     [] A.op \in SinOps -> "operand_to_rad"
     [] A.op \in ArcOps -> "operand_to_none"
